@@ -5,7 +5,7 @@ from __future__ import annotations
 import hashlib
 import random
 
-from .checks import reg
+from .checks import reg, scaled_floors
 
 
 class QueueCheck:
@@ -31,8 +31,8 @@ class QueueCheck:
         return [("sweep", n), ("random", 4000 if tier == "quick" else 200000)]
 
     def floors(self, tier):
-        return {"cancel.waiting": 200, "cancel.inside": 200, "cancelled_waiting": 200, "exit.cancelled": 200, "exit.raise": 200,
-                "exit.normal": 2000, "join_returned.waited": 300, "join_returned.immediate": 50}
+        return scaled_floors("C20", ["cancel.waiting", "cancel.inside", "cancelled_waiting", "exit.cancelled", "exit.raise", "exit.normal",
+                                     "join_returned.waited", "join_returned.immediate"], tier, 20)
 
     def timeout(self, tier):
         return 900 if tier == "quick" else 7200
@@ -90,7 +90,7 @@ class C16Check:
         return [("widths", 160 if tier == "quick" else 4000)]
 
     def floors(self, tier):
-        return {"C16.member_help_ok": 3000, "C16.handshake_ok": 120, "C16.private_rejected": 400, "C16.command_set_exact": 100}
+        return scaled_floors("C16", ["C16.member_help_ok", "C16.handshake_ok", "C16.private_rejected", "C16.command_set_exact"], tier, 25)
 
     def timeout(self, tier):
         return 900 if tier == "quick" else 7200
@@ -144,8 +144,8 @@ class C18Check:
         return [("random", 600 if tier == "quick" else 30000)]
 
     def floors(self, tier):
-        return {"C18.lines.invalid": 1000, "C18.lines.junk": 600, "C18.lines.mutant": 600, "C18.lines.help": 600, "C18.lines.valid": 1000,
-                "C18.probe_ok": 1000, "C18.isolation_ok": 1500, "C18.short_after_long": 300, "C18.waiting_released": 20}
+        return scaled_floors("C18", ["C18.lines.invalid", "C18.lines.junk", "C18.lines.mutant", "C18.lines.help", "C18.lines.valid",
+                                     "C18.probe_ok", "C18.isolation_ok", "C18.short_after_long", "C18.waiting_released"], tier, 50)
 
     def timeout(self, tier):
         return 900 if tier == "quick" else 7200
@@ -173,3 +173,109 @@ class C18Check:
 
 
 reg(C18Check())
+
+
+# ---------------------------------------------------------------------- C17
+class C17Check:
+    cid = "C17"
+    level = "translation_validation"
+    chunk = 60
+    rule = ("programs = well-formed command lines generated from the pool classes' signatures (every public method and property of TaskPool / SimpleTaskPool, random subsets of "
+            "options in long or short spelling, values from each parameter's domain: ints, strings, flags, repeated positionals, Python-literal containers, dotted-path functions); "
+            "each line is sent to a real ControlSession serving one pool while the equivalent direct call is made on an identically configured twin pool; reply text, public state "
+            "and the multiset of worker/callback invocations are compared after every command; non-trivial = >= 3 commands compared; distinct = distinct session seed")
+    assumptions = ["the twin pool driven by direct Python calls is the reference semantics",
+                   "command lines are well formed: single spaces between tokens, no spaces inside values",
+                   "in-memory transport at the ControlSession constructor boundary"]
+
+    def prepare(self):
+        from . import control, mods
+
+        self.mods = control.load_control(mods.load())
+
+    def families(self, tier):
+        return [("random", 600 if tier == "quick" else 20000)]
+
+    def floors(self, tier):
+        return scaled_floors("C17", ["C17.state_ok", "C17.reply_ok.ret", "C17.reply_ok.exc", "C17.options.2"], tier, 33)
+
+    def timeout(self, tier):
+        return 900 if tier == "quick" else 7200
+
+    def make_case(self, fam, seed, i, tier):
+        from . import c17
+
+        return c17.gen_scenario(random.Random(f"{seed}:C17:{i}"))
+
+    def run_case(self, case, verbose=False):
+        from . import c17
+
+        w = c17.World(self.mods, case)
+        r = w.run()
+        sit = r["sit"]
+        out = {"viol": r["viol"], "sit": sit, "inconclusive": r["inconclusive"],
+               "nontrivial": sit.get("C17.state_ok", 0) >= 3, "sig": str(case["seed"]),
+               "extra": {"programs": w.programs, "disagreements_checked": w.disagreements_checked}}
+        if r["viol"]:
+            out["log_tail"] = w.log[-60:]
+        if verbose:
+            out["log"] = w.log
+        out["sample"] = {"case": case, "log_head": w.log[:25]}
+        return out
+
+
+reg(C17Check())
+
+
+# ---------------------------------------------------------------------- C19
+class C19Check:
+    cid = "C19"
+    level = "exploration"
+    chunk = 4
+    rule = ("random lifecycles of a real TCPControlServer / UnixControlServer: 0-4 raw stream clients (connect, probe and mutating commands, parking in until-closed, disconnect by "
+            "close / half-close / abort) and in ~20% of the cases the bundled CLI client as a subprocess (commands on stdin, 'exit' or stdin EOF), with the cancellation of the serving "
+            "task placed anywhere in the merged action order; verdicts at socket quiescence (consecutive idle 1 ms ticks, empty selector); non-trivial = at least one client connected "
+            "and the server was stopped; distinct = distinct merged action order")
+    assumptions = ["loopback TCP and Unix sockets of this kernel; CPython 3.12.1 Server.wait_closed semantics",
+                   "a 60 s wall-clock watchdog only ever yields INCONCLUSIVE, never a violation",
+                   "the TCP port is chosen by binding port 0 on a probe socket first (small reuse race accepted in a sealed sandbox)"]
+
+    def prepare(self):
+        from . import control, mods
+
+        self.mods = control.load_control(mods.load())
+
+    def families(self, tier):
+        return [("random", 160 if tier == "quick" else 3000)]
+
+    def floors(self, tier):
+        return scaled_floors("C19", ["C19.handshakes", "C19.probe_ok", "C19.stopped", "C19.cli_ok", "C19.started.tcp", "C19.started.unix", "C19.disconnect.abort",
+                                     "C19.disconnect.eof", "C19.disconnect.close", "C19.stop_with_clients.1", "C19.connect_after_stop_refused",
+                                     "C19.probe_ok_while_parked"], tier, 18)
+
+    def timeout(self, tier):
+        return 900 if tier == "quick" else 7200
+
+    def make_case(self, fam, seed, i, tier):
+        from . import c19
+
+        return c19.gen_scenario(random.Random(f"{seed}:C19:{i}"))
+
+    def run_case(self, case, verbose=False):
+        from . import c19
+
+        w = c19.World(self.mods, case)
+        r = w.run()
+        sit = r["sit"]
+        out = {"viol": r["viol"], "sit": sit, "inconclusive": r["inconclusive"],
+               "nontrivial": sit.get("C19.handshakes", 0) > 0 and sit.get("C19.stopped", 0) > 0,
+               "sig": hashlib.md5(repr(case["order"]).encode()).hexdigest()[:12], "extra": {}}
+        if r["viol"]:
+            out["log_tail"] = w.log[-60:]
+        if verbose:
+            out["log"] = w.log + ["loop errors: " + e[:200] for e in w.loop_errors[:5]]
+        out["sample"] = {"case": case, "log_head": w.log[:25]}
+        return out
+
+
+reg(C19Check())
